@@ -219,6 +219,14 @@ func TestC13(t *testing.T) {
 			}
 			rec.Add("ok_requests", 1)
 			got := model.ObserveNorm(v, root)
+			if got.DupListKeys() {
+				// two entries with one key: which of them a later request (and this comparison) reaches
+				// depends on map iteration order, so the history stops here whether or not a leaf differs yet
+				if v.Wrapper && rec.Excuse(th.F33, hasUnionKeyedPayload(ops)) {
+					return
+				}
+				rt.Fatalf("after request %d a keyed list holds two entries with the same key:\n%s\nobserved:\n%s", ri, desc(), got.Dump())
+			}
 			if d := leafSetDiff(m, got, true); len(d) > 0 {
 				if v.Wrapper && rec.Active(th.F33) {
 					// known: duplicate entries in union-keyed lists; every difference must lie below one
@@ -228,13 +236,7 @@ func TestC13(t *testing.T) {
 							all = false
 						}
 					}
-					payloadHits := false
-					for _, op := range ops {
-						if op.sub != nil && th.UnionKeyed(op.sub) {
-							payloadHits = true
-						}
-					}
-					if rec.Excuse(th.F33, all && payloadHits) {
+					if rec.Excuse(th.F33, all && hasUnionKeyedPayload(ops)) {
 						return
 					}
 				}
@@ -249,6 +251,16 @@ func TestC13(t *testing.T) {
 			rec.Sample(map[string]interface{}{"variant": v.Name, "history": hist})
 		}
 	})
+}
+
+// hasUnionKeyedPayload: some operation carries a JSON document that mentions an entry of a union-keyed list.
+func hasUnionKeyedPayload(ops []*setOp) bool {
+	for _, op := range ops {
+		if op.sub != nil && th.UnionKeyed(op.sub) {
+			return true
+		}
+	}
+	return false
 }
 
 func anyBin(l []model.Val) bool {
